@@ -58,6 +58,9 @@ def frag_valid(fragment: str) -> bool:
 def outcome(s: str, cfg: dict) -> str:
     o = palpha.parse_formula(s, cfg)
     st = o["st"]
+    law = palpha.context_law(s, o)
+    if law:
+        return "C:" + law
     if st in ("OK", "OTHER"):
         return "O"
     if st == "REJECT":
